@@ -1177,7 +1177,7 @@ func (c *Compiler) BuildWhens(n parse.Node) []schema.WhenContext {
 
 		whenMachine, errW := expr.NewExprMachine(when.ArgWhen(), mapFn)
 		if errW != nil {
-			c.error(n, errW)
+			c.error(when, errW)
 		}
 		errMsg := fmt.Sprintf("'when' condition is false: '%s'", when.ArgWhen())
 
@@ -1228,7 +1228,7 @@ func (c *Compiler) BuildMusts(n parse.Node) []schema.MustContext {
 		if mustMachine == nil {
 			mustMachine, errM = expr.NewExprMachine(baseMustExpr, mapFn)
 			if errM != nil {
-				c.error(n, errM)
+				c.error(must, errM)
 			}
 			mustExpr = baseMustExpr
 		}
